@@ -350,6 +350,51 @@ Definition frame_msg {enc msg} (deser : list N -> option msg)
     end
   else None.
 
+(* ---- vocabulary of the property statements (Props/C07.v, and the C01 / C06 halves) -------- *)
+Definition U32 : N := 4294967296.
+(* the wire bytes of a (flag, payload) pair *)
+Definition raw (f : N * list N) : list N := frame (fst f) (snd f).
+(* data chunks hold bytes *)
+Definition ev_ok (e : bev) : Prop := match e with BData b => bytes_ok b = true | _ => True end.
+(* a script made of data chunks and Pending only *)
+Definition only_dp (evs : list bev) : Prop :=
+  Forall (fun e => match e with BPending | BData _ => True | _ => False end) evs.
+(* the messages among a sequence of poll results *)
+Definition oks_of {msg} (t : list (pres msg)) : list msg :=
+  flat_map (fun r => match r with Item (IOk m) => [m] | _ => [] end) t.
+Definition is_pending {msg} (r : pres msg) : bool := match r with Pending => true | _ => false end.
+Definition strip_pending {msg} (t : list (pres msg)) : list (pres msg) :=
+  filter (fun r => negb (is_pending r)) t.
+(* response() finds no error status: always for Request / EmptyResponse *)
+Definition resp_ok (dir : direction) (tr : option hm) : Prop :=
+  match dir with
+  | Response http => match infer_grpc_status tr http with inr (Some _) => False | _ => True end
+  | _ => True
+  end.
+(* how a well-behaved script ends: the body just ends, or one trailers frame; in both cases
+   with a status that is not an error *)
+Definition term_ok (dir : direction) (tr0 : option hm) (term : list bev) : Prop :=
+  (term = [] /\ resp_ok dir tr0) \/
+  (exists t, term = [BTrailers t] /\
+     resp_ok dir (Some (match tr0 with Some t0 => hm_extend t0 t | None => t end))).
+(* a frame that stands for message [m] and passes the size limit *)
+Definition good {enc msg} (deser : list N -> option msg) (decompress : enc -> list N -> option (list N))
+           (lim : N) (e0 : option enc) (f : N * list N) (m : msg) : Prop :=
+  frame_msg deser decompress e0 f = Some m /\ nlen (snd f) < U32 /\ nlen (snd f) <= lim.
+Definition legal_flag {enc} (d : dec enc) (fl : N) : Prop := fl = 0 \/ (fl = 1 /\ d_encoding d <> None).
+Definition chunk_log {enc msg} (k : chunk enc msg) (dflt : list ghost) : list ghost :=
+  match k with KErr _ d' | KNone d' | KItem _ d' => d_log d' | KPanic => dflt end.
+Definition chunk_is_oor {enc msg} (k : chunk enc msg) : bool :=
+  match k with KErr st _ => st_code st =? Code_OutOfRange | _ => false end.
+(* what an encoder puts on the wire for one message: compressed (flag 1, only under a negotiated
+   encoding) or identity (flag 0; also the per-message compression override) *)
+Definition wire_frame {enc msg} (ser : msg -> list N) (compress : enc -> list N -> list N)
+           (encoding : option enc) (compressed : bool) (m : msg) : N * list N :=
+  match compressed, encoding with
+  | true, Some e => (1, compress e (ser m))
+  | _, _ => (0, ser m)
+  end.
+
 (* ---- executable instance and observables (correspondence harness h_decode) --------------- *)
 (* encodings are numbered 0 gzip, 1 deflate, 2 zstd; the raw-bytes decoder of the harness fails
    on payloads whose first byte is 0xFF; the results of the real decompressors on the flagged
